@@ -4159,6 +4159,10 @@ class TLSConnection(TLSRecordLayer):
                                         serverHello.random,
                                         settings.cipherImplementations)
 
+                #Set the session, so that a failure in the rest of the
+                #abbreviated handshake makes it non-resumable
+                self.session = session
+
                 #Exchange ChangeCipherSpec and Finished messages
                 for result in self._sendFinished(session.masterSecret,
                                                  session.cipherSuite,
@@ -4168,8 +4172,6 @@ class TLSConnection(TLSRecordLayer):
                                                 session.cipherSuite):
                     yield result
 
-                #Set the session
-                self.session = session
                 self._clientRandom = clientHello.random
                 self._serverRandom = serverHello.random
                 self.session.appProto = selectedALPN
